@@ -34,6 +34,11 @@ class Unrecognised(AnalysisError):
     pass
 
 
+PURE_STR_METHODS = frozenset('''upper lower title capitalize casefold swapcase strip lstrip rstrip replace startswith endswith
+    split rsplit partition rpartition removeprefix removesuffix zfill center ljust rjust isdigit isalpha isalnum isidentifier
+    isupper islower isspace find rfind count'''.split())
+
+
 # --------------------------------------------------------------------- values
 class ListVal:
     """A list whose spine is known (elements are terms or ('star', term))."""
@@ -70,6 +75,18 @@ class ProdVal:
         self.values = list(values)      # semantic value per rhs symbol (index 0 = p[1])
         self.result = ('const', None)   # PLY initialises p[0] to None
         self.result_set = False
+
+
+class GlobalsVal:
+    """globals() (or vars()/locals() at module level) while a module body is executed: the module's bindings themselves."""
+    __slots__ = ('env', 'modname')
+
+    def __init__(self, env, modname):
+        self.env = env
+        self.modname = modname
+
+    def __repr__(self):
+        return '<globals of %s>' % self.modname
 
 
 class PartialVal:
@@ -119,6 +136,8 @@ def freeze(v, _depth=0):
     """Immutable, printable form of a value."""
     if isinstance(v, ExitStackVal):
         return ('exitstack', v.oid)
+    if isinstance(v, GlobalsVal):
+        return ('globals', v.modname)
     if isinstance(v, ListVal):
         return ('list',) + tuple(freeze(e, _depth + 1) for e in v.elts)
     if isinstance(v, DictVal):
@@ -408,6 +427,8 @@ class SymExec:
         if self.closure is not None:
             c = self.closure
             fr = Frame(c.module, c.qual, c.cls, env={}, outer=c.outer)
+        elif getattr(fi, 'captured', None) is not None:
+            fr = Frame(fi.module, fi.qual, fi.cls, env={}, outer=fi.captured.outer)
         else:
             fr = Frame(fi.module, fi.qual, fi.cls)
         self._bind_params(fr, fi.node, None, None, top=True)
@@ -1262,6 +1283,20 @@ class SymExec:
                 vs = list(fv.elts)
             elif isinstance(fv, tuple) and fv and fv[0] == 'tuple' and len(fv) - 1 == len(target.elts):
                 vs = list(fv[1:])
+            stars_ = [i for i, t in enumerate(target.elts) if isinstance(t, ast.Starred)]
+            spine_ = list(fv.elts) if isinstance(fv, ListVal) and fv.concrete() else (
+                list(fv[1:]) if isinstance(fv, tuple) and fv[:1] == ('tuple',) and not any(isinstance(x, tuple) and x[:1] == ('star',) for x in fv[1:]) else None)
+            if len(stars_) == 1 and spine_ is not None and len(spine_) >= len(target.elts) - 1:
+                # a, *rest, z = <known spine>: the starred name takes the middle part as a new list
+                k_ = stars_[0]
+                after_ = len(target.elts) - 1 - k_
+                for i, t in enumerate(target.elts[:k_]):
+                    self.assign(t, spine_[i], fr, node)
+                mid_ = spine_[k_:len(spine_) - after_]
+                self.assign(target.elts[k_].value, ListVal(mid_, self.fresh()), fr, node)
+                for j, t in enumerate(target.elts[k_ + 1:]):
+                    self.assign(t, spine_[len(spine_) - after_ + j], fr, node)
+                return
             for i, t in enumerate(target.elts):
                 if isinstance(t, ast.Starred):
                     self.assign(t.value, ('unpack*', freeze(v), i), fr, node)
@@ -1270,6 +1305,11 @@ class SymExec:
         elif isinstance(target, ast.Attribute):
             obj = self.ev(target.value, fr)
             self.emit('store_attr', node, obj=obj, attr=target.attr, value=v)
+            fo_ = freeze(obj)
+            if target.attr == '__doc__' and fr.module.name in self.module_env and isinstance(fo_, tuple) and fo_[:1] == ('ref',) \
+                    and fo_[1] in ('fnraw', 'func'):
+                # <function>.__doc__ = ... while the module is imported (PLY reads grammar productions / regexes from it)
+                self.facts.__dict__.setdefault('_doc_overrides', {})[fo_[2]] = freeze(v)
         elif isinstance(target, ast.Subscript):
             obj = self.ev(target.value, fr)
             idx = self.ev(target.slice, fr)
@@ -1281,6 +1321,11 @@ class SymExec:
             m_ = self._singleton_method(obj, '__setitem__')
             if m_ is not None:
                 self._inline_call(m_, [obj, idx, v], [], node, ('attr', freeze(obj), '__setitem__'))
+                return
+            if isinstance(obj, GlobalsVal):
+                if not (is_const(freeze(idx)) and isinstance(freeze(idx)[1], str)):
+                    raise Unrecognised('globals()[%s] = ...: the name is not a constant' % show(idx))
+                obj.env[freeze(idx)[1]] = v
                 return
             if isinstance(obj, ListVal) and obj.concrete() and is_const(idx) and isinstance(idx[1], int) \
                     and -len(obj.elts) <= idx[1] < len(obj.elts):
@@ -1302,6 +1347,13 @@ class SymExec:
             t = self._const_tuple(q)
             if t is not None:
                 return t
+            if self.module_env:
+                # while a module body is executed: a table another package module computed at its own import
+                mod_, _, nm_ = q.rpartition('.')
+                if mod_ in self.facts.modules and mod_ not in self.module_env:
+                    v_ = exec_module_body(self.facts, self.facts.modules[mod_]).get(nm_)
+                    if isinstance(v_, (ListVal, DictVal)) or (isinstance(v_, tuple) and v_[:1] in (('tuple',), ('const',))):
+                        return v_
         return ('ref', k, q)
 
     def _class_attr(self, cq: str, name: str, exact: bool):
@@ -1714,6 +1766,12 @@ class SymExec:
                     out.extend(v.elts)
                 elif isinstance(v, tuple) and v and v[0] == 'tuple':
                     out.extend(v[1:])
+                elif isinstance(v, DictVal) and all(i[0] != 'dstar' and is_const(freeze(i[0])) for i in v.items):
+                    ks_ = []
+                    for k_, _ in v.items:
+                        if freeze(k_) not in ks_:
+                            ks_.append(freeze(k_))
+                    out.extend(ks_)               # *d of a dict whose keys are known: the keys in insertion order
                 else:
                     out.append(('star', freeze(v)))
             else:
@@ -1724,8 +1782,7 @@ class SymExec:
         return ListVal(self._elts(e.elts, fr), self.fresh())
 
     def ex_Tuple(self, e, fr):
-        return ('tuple',) + tuple(freeze(x) if not isinstance(x, (ListVal, DictVal, Closure, ProdVal)) else x
-                                  for x in self._elts(e.elts, fr))
+        return ('tuple',) + tuple(x if isinstance(x, ProdVal) else keep(x) for x in self._elts(e.elts, fr))
 
     def ex_Set(self, e, fr):
         return ('set',) + tuple(freeze(x) for x in self._elts(e.elts, fr))
@@ -1751,7 +1808,14 @@ class SymExec:
             if isinstance(v, ast.Constant):
                 parts.append(('const', v.value))
             else:
-                parts.append(freeze(self.ev(v.value, fr)))
+                pv_ = freeze(self.ev(v.value, fr))
+                if v.format_spec is not None or v.conversion != -1:
+                    spec_ = freeze(self.ev(v.format_spec, fr)) if v.format_spec is not None else ('const', '')
+                    pv_ = ('fmt', pv_, spec_, v.conversion)        # {value!c:spec}
+                parts.append(pv_)
+        if all(is_const(p_) and isinstance(p_[1], str) for p_ in parts) and all(
+                isinstance(v, ast.Constant) or (v.conversion == -1 and v.format_spec is None) for v in e.values):
+            return ('const', ''.join(p_[1] for p_ in parts))        # every part is a known string
         return ('fstr',) + tuple(parts)
 
     def ex_FormattedValue(self, e, fr):
@@ -1810,8 +1874,22 @@ class SymExec:
                     return ('const', l[1] * r[1])
             except Exception:
                 pass
+        if op == '%' and is_const(l) and isinstance(l[1], str):
+            fr_ = freeze(r)
+            vals_ = None
+            if is_const(fr_) and isinstance(fr_[1], (str, int)) and not isinstance(fr_[1], bool):
+                vals_ = fr_[1]
+            elif isinstance(fr_, tuple) and fr_[:1] == ('tuple',) and all(is_const(x) and isinstance(x[1], (str, int)) for x in fr_[1:]):
+                vals_ = tuple(x[1] for x in fr_[1:])
+            if vals_ is not None:
+                try:
+                    return ('const', l[1] % vals_)
+                except Exception:
+                    pass
         if op == '+' and isinstance(l, ListVal) and isinstance(r, ListVal):
             return ListVal(l.elts + r.elts, self.fresh())
+        if op == '+' and isinstance(l, tuple) and l[:1] == ('tuple',) and isinstance(r, tuple) and r[:1] == ('tuple',):
+            return l + r[1:]               # tuple displays concatenated
         if op == '+' and isinstance(r, ListVal) and isinstance(l, tuple) and l and l[0] in ('symlist',):
             return ListVal([('star', freeze(l))] + r.elts, self.fresh())
         if op == '+' and isinstance(l, ListVal) and isinstance(r, tuple) and r and r[0] in ('symlist',):
@@ -2015,7 +2093,70 @@ class SymExec:
                 self.neqs.setdefault(ft[2], set()).add(ft[3][1])
 
     # ------------------------------------------------------- comprehensions
+    def _comp_unrolled(self, e, fr, kind):
+        """A list/dict/set/generator comprehension with several `for` clauses or `if` filters whose iterables are all known
+        spines and whose filters all fold: the elements in order; None when anything is unknown (nothing is recorded then)."""
+        if len(e.generators) == 1 and not e.generators[0].ifs:
+            return None                                   # the single-clause case is handled by the caller
+        if kind not in ('list', 'dict') or any(g.is_async for g in e.generators):
+            return None
+        n_ev, n_as = len(self.events), len(self.assump_log)
+        inner = Frame(fr.module, fr.qual, fr.cls, env={}, outer=fr, self_name=fr.self_name)
+        out = []
+        budget = [256]
+
+        class _No(Exception):
+            pass
+
+        def spine_of(it):
+            if isinstance(it, ListVal) and it.concrete():
+                return list(it.elts)
+            if isinstance(it, tuple) and it[:1] in (('tuple',), ('list',)) and \
+                    not any(isinstance(x, tuple) and x[:1] == ('star',) for x in it[1:]):
+                return list(it[1:])
+            if isinstance(it, DictVal) and all(i[0] != 'dstar' and is_const(freeze(i[0])) for i in it.items):
+                ks = []
+                for k_, _ in it.items:
+                    if freeze(k_) not in ks:
+                        ks.append(freeze(k_))
+                return ks
+            raise _No()
+
+        def rec(gi):
+            if gi == len(e.generators):
+                budget[0] -= 1
+                if budget[0] < 0:
+                    raise _No()
+                if kind == 'dict':
+                    out.append((self.ev(e.key, inner), self.ev(e.value, inner)))
+                else:
+                    out.append(self.ev(e.elt, inner))
+                return
+            g = e.generators[gi]
+            for el in spine_of(self.ev(g.iter, inner if gi else fr)):
+                self.assign(g.target, el, inner, e)
+                ok = True
+                for c in g.ifs:
+                    k = self.known_truth(self.ev(c, inner))
+                    if k is None:
+                        raise _No()
+                    if not k:
+                        ok = False
+                        break
+                if ok:
+                    rec(gi + 1)
+        try:
+            rec(0)
+        except _No:
+            del self.events[n_ev:]
+            del self.assump_log[n_as:]
+            return None
+        return DictVal(out, self.fresh()) if kind == 'dict' else ListVal(out, self.fresh())
+
     def _comp(self, e, fr, kind):
+        un = self._comp_unrolled(e, fr, kind)
+        if un is not None:
+            return un
         cid = self.fresh()
         inner = Frame(fr.module, fr.qual, fr.cls, env={}, outer=fr, self_name=fr.self_name)
         inner.self_name = fr.self_name
@@ -2030,8 +2171,14 @@ class SymExec:
                 if isinstance(it, tuple) and it and it[0] == 'tuple' and len(it) > 1 and \
                         not any(isinstance(x, tuple) and x and x[0] == 'star' for x in it[1:]):
                     it = ListVal(list(it[1:]), self.fresh())
+                if isinstance(it, DictVal) and it.items and all(i[0] != 'dstar' and is_const(freeze(i[0])) for i in it.items):
+                    ks_ = []
+                    for k_, _ in it.items:
+                        if freeze(k_) not in ks_:
+                            ks_.append(freeze(k_))
+                    it = ListVal(ks_, self.fresh())         # iterating a dict whose keys are known: the keys in order
                 if gi == 0 and len(e.generators) == 1 and not g.ifs and isinstance(it, ListVal) and it.concrete() \
-                        and len(it.elts) <= 16 and kind in ('list', 'dict'):
+                        and len(it.elts) <= (64 if fr.module.name in self.module_env else 16) and kind in ('list', 'dict'):
                     concrete_iter = (g, it)
                     break
                 self.ctx.append(('comp', cid, freeze(it), kind, e))
@@ -2351,6 +2498,9 @@ class SymExec:
         # ---- folding of a few pure builtins on known values
         if isinstance(ff, tuple) and ff[:2] == ('ref', 'builtin'):
             name = ff[2]
+            if name in ('globals', 'vars', 'locals') and not args and not kwargs and fr is not None \
+                    and self.module_env.get(fr.module.name) is not None and (name == 'globals' or fr.qual.endswith('.<module>')):
+                return GlobalsVal(self.module_env[fr.module.name], fr.module.name)
             if name == 'len' and len(args) == 1:
                 a = args[0]
                 if isinstance(a, ProdVal):
@@ -2432,6 +2582,32 @@ class SymExec:
             if name == 'range' and args and all(is_const(a) and isinstance(a[1], int) for a in args) \
                     and len(range(*[a[1] for a in args])) <= 16:
                 return ListVal([('const', i) for i in range(*[a[1] for a in args])], self.fresh())
+        # ---- pure str methods on a constant receiver with constant arguments
+        if isinstance(ff, tuple) and ff[:1] == ('attr',) and is_const(ff[1]) and isinstance(ff[1][1], str) and ff[2] in PURE_STR_METHODS \
+                and all(is_const(a) and isinstance(a[1], (str, int, type(None))) for a in fargs) and not kwargs:
+            try:
+                res_ = getattr(ff[1][1], ff[2])(*[a[1] for a in fargs])
+            except Exception:
+                res_ = NotImplemented
+            if isinstance(res_, (str, bool, int)):
+                return ('const', res_)
+            if isinstance(res_, (list, tuple)) and all(isinstance(x, str) for x in res_):
+                if isinstance(res_, list):
+                    return ListVal([('const', x) for x in res_], self.fresh())
+                return ('tuple',) + tuple(('const', x) for x in res_)
+        if isinstance(ff, tuple) and ff[:1] == ('attr',) and is_const(ff[1]) and isinstance(ff[1][1], str) and ff[2] == 'format' \
+                and all(is_const(a) and isinstance(a[1], (str, int)) for a in fargs) \
+                and all(isinstance(k, str) and is_const(v) and isinstance(v[1], (str, int)) for k, v in fkw):
+            try:
+                return ('const', ff[1][1].format(*[a[1] for a in fargs], **{k: v[1] for k, v in fkw}))
+            except Exception:
+                pass
+        if isinstance(ff, tuple) and ff[:1] == ('attr',) and is_const(ff[1]) and isinstance(ff[1][1], str) and ff[2] == 'join' \
+                and len(args) == 1 and not kwargs:
+            a_ = args[0]
+            sp_ = a_.elts if isinstance(a_, ListVal) and a_.concrete() else (list(a_[1:]) if isinstance(a_, tuple) and a_[:1] == ('tuple',) else None)
+            if sp_ is not None and all(is_const(freeze(x)) and isinstance(freeze(x)[1], str) for x in sp_):
+                return ('const', ff[1][1].join(freeze(x)[1] for x in sp_))
         # ---- TABLE.get(const[, default]) on a module-level dispatch table
         if isinstance(ff, tuple) and ff and ff[0] == 'attr' and ff[2] == 'get' and isinstance(ff[1], tuple) and ff[1][:2] == ('ref', 'modvar') \
                 and args and is_const(freeze(args[0])) and not kwargs:
@@ -2440,6 +2616,23 @@ class SymExec:
                 if hit[0]:
                     return hit[1]
                 return args[1] if len(args) > 1 else ('const', None)
+        if isinstance(ff, tuple) and ff[:1] == ('call',) and len(ff) >= 4 and ff[2] in (('ref', 'ext', 'smartquery.ply.lex.TOKEN'), ('ref', 'ext', 'smartquery.ply.lex.Token')) \
+                and len(ff[3]) == 1 and len(args) == 1 and not kwargs:
+            # TOKEN(regex)(f): f itself, carrying the regex PLY reads from it
+            return ('tokenrule', ff[3][0], keep(args[0]))
+        if ff == ('ref', 'ext', 'functools.reduce') and 2 <= len(args) <= 3 and not kwargs:
+            # reduce(f, xs[, init]) over a known spine is the left fold, call by call
+            a_ = args[1]
+            sp_ = list(a_.elts) if isinstance(a_, ListVal) and a_.concrete() else (
+                list(a_[1:]) if isinstance(a_, tuple) and a_[:1] == ('tuple',) and not any(isinstance(x, tuple) and x[:1] == ('star',) for x in a_[1:]) else None)
+            if sp_ is not None and len(sp_) <= 32 and (len(args) == 3 or sp_):
+                acc_ = args[2] if len(args) == 3 else sp_.pop(0)
+                for el_ in sp_:
+                    acc_ = self.call(args[0], [acc_, el_], [], node, fr)
+                return acc_
+        if ff == ('ref', 'ext', 're.escape') and len(fargs) == 1 and not kwargs and is_const(fargs[0]) and isinstance(fargs[0][1], str):
+            import re as _re
+            return ('const', _re.escape(fargs[0][1]))
         # ---- the operator module spells the operators as functions
         if isinstance(ff, tuple) and ff[:2] == ('ref', 'ext') and ff[2].startswith('operator.') and not kwargs:
             name = ff[2].split('.', 1)[1]
@@ -2739,13 +2932,35 @@ class SymExec:
                         fields_[ev_.attr] = keep(ev_.value)      # closures / spines stored on the object stay callable / iterable
                         ev_.d['init_field'] = True
                 return ('new', qual, tuple(fields_.items()), eid)
+        nt_ = self._namedtuple_fields(qual) if not init else None
+        if nt_ is not None and not any(isinstance(a, tuple) and a[:1] == ('star',) for a in args) and len(args) <= len(nt_) \
+                and all(isinstance(k, str) and k in dict(nt_) for k, _ in kwargs):
+            # typing.NamedTuple: positional and keyword arguments fill the declared fields, defaults the rest
+            vals_ = {}
+            for (n_, _d), a in zip(nt_, args):
+                vals_[n_] = keep(a)
+            for k, v in kwargs:
+                vals_[k] = keep(v)
+            cfr_ = Frame(ci.module, qual, None)
+            for n_, d_ in nt_:
+                if n_ not in vals_:
+                    if d_ is None:
+                        vals_ = None
+                        break
+                    vals_[n_] = keep(self.ev(d_, cfr_))
+            if vals_ is not None:
+                return ('new', qual, tuple((n_, vals_[n_]) for n_, _ in nt_), eid)
         if not is_dc or init:
             return ('new', qual, tuple(('arg%d' % i, freeze(a)) for i, a in enumerate(args)) +
                     tuple((k, freeze(v)) for k, v in kwargs), eid)
         vals: Dict[str, Any] = {}
         pos = [a for a in args]
         if any(isinstance(a, tuple) and a and a[0] == 'star' for a in pos):
-            raise Unrecognised('constructor %s called with *args of unknown length (%s)' % (qual, norm(node)))
+            if self.prod is not None:
+                raise Unrecognised('constructor %s called with *args of unknown length (%s)' % (qual, norm(node)))
+            # outside a per-production run (effect scans): an object of the class whose fields are not known one by one
+            return ('new', qual, tuple(('arg%d' % i, freeze(a)) for i, a in enumerate(args)) +
+                    tuple((k, freeze(v)) for k, v in kwargs), eid)
         if len(pos) > len(fields):
             self.emit('bad_ctor', node, cls=qual, why='too many positional arguments')
         for (n, ann, d, q), a in zip(fields, pos):
@@ -2828,6 +3043,12 @@ def _ex_Call(self: SymExec, e, fr):
             kw0 = [(kw.arg, self.ev(kw.value, fr)) for kw in e.keywords]
             recv0.callbacks.append((args0[0], args0[1:], kw0, e))
             return args0[0]
+    if isinstance(e.func, ast.Attribute) and e.func.attr == 'join' and len(e.args) == 1 and not e.keywords \
+            and isinstance(e.args[0], ast.GeneratorExp):
+        # sep.join(<generator expression>) consumes the generator on the spot: same as the list comprehension
+        recv = self.ev(e.func.value, fr)
+        func = self.attr(recv, 'join', e.func, fr)
+        return self.call(func, [self._comp(e.args[0], fr, 'list')], [], e, fr)
     if isinstance(e.func, ast.Attribute) and e.func.attr in ('items', 'keys', 'values') and not e.args and not e.keywords:
         recv = self.ev(e.func.value, fr)
         if isinstance(recv, DictVal) and all(it[0] != 'dstar' for it in recv.items):
@@ -2848,6 +3069,25 @@ def _ex_Call(self: SymExec, e, fr):
         return self.call(func, [], [], e, fr)
     if isinstance(e.func, ast.Attribute) and e.func.attr == 'update' and (len(e.args) + len(e.keywords)) >= 1:
         recv = self.ev(e.func.value, fr)
+        if isinstance(recv, GlobalsVal):
+            # globals().update({...}, k=v): module-level bindings made from a dict whose keys are all known
+            for a in self._elts(e.args, fr):
+                if isinstance(a, ListVal) and a.concrete() and all(isinstance(x, tuple) and x[:1] == ('tuple',) and len(x) == 3 for x in a.elts):
+                    a = DictVal([(x[1], x[2]) for x in a.elts], self.fresh())
+                if not isinstance(a, DictVal) or any(i[0] == 'dstar' or not (is_const(freeze(i[0])) and isinstance(freeze(i[0])[1], str)) for i in a.items):
+                    raise Unrecognised('globals().update(%s): the names bound are not all known' % show(a))
+                for k_, v_ in a.items:
+                    recv.env[freeze(k_)[1]] = v_
+            for kw in e.keywords:
+                v_ = self.ev(kw.value, fr)
+                if kw.arg is None:
+                    if not isinstance(v_, DictVal) or any(i[0] == 'dstar' or not is_const(freeze(i[0])) for i in v_.items):
+                        raise Unrecognised('globals().update(**%s): the names bound are not all known' % show(v_))
+                    for k2, v2 in v_.items:
+                        recv.env[freeze(k2)[1]] = v2
+                else:
+                    recv.env[kw.arg] = v_
+            return ('const', None)
         if isinstance(recv, DictVal):
             # d.update(other, k=v ...) on a dict whose entries are known: entries of known dicts are added, anything else
             # leaves an unknown remainder
@@ -2877,6 +3117,17 @@ def _ex_Call(self: SymExec, e, fr):
         recv = self.ev(e.func.value, fr)
         spine = recv.elts if isinstance(recv, ListVal) and recv.concrete() else (
             list(recv[1:]) if isinstance(recv, tuple) and recv[:1] == ('tuple',) else None)
+        if spine is not None and e.func.attr == 'index' and self.prod is not None and len(spine) <= 8 \
+                and not all(is_const(freeze(x)) for x in spine):
+            # xs.index(v) over a known spine of grammar values: the first position whose element equals v, one comparison at
+            # a time (two different subtrees may or may not be equal: both outcomes are followed)
+            a0 = self.ev(e.args[0], fr)
+            for i_, el_ in enumerate(spine):
+                if freeze(el_) == freeze(a0) or self.truth(self.compare('==', el_, a0, e), e):
+                    return ('const', i_)
+            exc = ('call', self.fresh(), ('ref', 'builtin', 'ValueError'), (), ())
+            self.emit('raise', e, exc=exc, implicit=True)
+            raise _Raise(exc, e)
         if spine is not None and all(is_const(freeze(x)) for x in spine):
             a0 = self.ev(e.args[0], fr)
             if is_const(freeze(a0)):
@@ -2988,13 +3239,23 @@ def exec_module_body(F, m):
     if m.name in cache:
         return cache[m.name]
     cache[m.name] = {}            # re-entrancy guard
+    problems = F.__dict__.setdefault('_module_env_problems', {}).setdefault(m.name, [])      # statements that could not be run
     dummy = ast.parse('def __module_body__():\n    pass').body[0]
     from .facts import FuncInfo
     se = SymExec(F, FuncInfo(m.name + '.<module>', m, dummy))
     se._reset([])
     fr = Frame(m, m.name + '.<module>', None)
     se.module_env[m.name] = fr.env
+    order = F.__dict__.setdefault('_module_env_order', {}).setdefault(m.name, [])
+
+    def note():
+        for k_ in fr.env:
+            if k_ not in order:
+                order.append(k_)
     for st in m.tree.body:
+        note()
+        if isinstance(st, (ast.FunctionDef, ast.ClassDef)) and st.name not in order:
+            order.append(st.name)
         try:
             if isinstance(st, (ast.ClassDef, ast.Import, ast.ImportFrom)):
                 continue
@@ -3011,7 +3272,16 @@ def exec_module_body(F, m):
                     fr.env[st.name] = cur
                 continue
             se.exec_stmt(st, fr)
-        except (Unrecognised, _Signal, _NeedMoreChoices):
+        except (Unrecognised, _Signal, _NeedMoreChoices) as ex_:
+            problems.append((st, '%s: %s' % (type(ex_).__name__, ex_)))
             continue
+    note()
     cache[m.name] = fr.env
     return fr.env
+
+
+def module_binding_order(F, m):
+    """Names bound by the module body in the order of their first binding (defs and assignments alike), as the module's
+    __dict__ would list them."""
+    exec_module_body(F, m)
+    return F.__dict__.get('_module_env_order', {}).get(m.name, [])
